@@ -287,8 +287,10 @@ class ShardsFamily(_Base):
     cfg = self._common_gen(rng)
     cfg['spec'] = pipes.gen_spec(rng, max_n=8, allow_sink=False,
                                  allow_rebatch=False)
-    cfg['spec']['aggs'] = ['int']
+    cfg['spec']['aggs'] = ['int'] + (['tsum'] if rng.random() < 0.3 else [])
     cfg['spec']['slice'] = False
+    if rng.random() < 0.2:
+      pipes.gen_early(rng, cfg['spec'])   # aggregates on two named stages
     cfg['shards'] = rng.randrange(1, 7)
     cfg['ibs'] = rng.choice([1, 2, 3])
     cfg['prefetch'] = rng.choice([1, 2, 4])
@@ -421,7 +423,13 @@ class ShardsFamily(_Base):
     if spec['n'] > 1:
       c = copy.deepcopy(cfg); c['spec']['n'] -= 1; yield c
     for i in range(len(spec['ops'])):
-      c = copy.deepcopy(cfg); del c['spec']['ops'][i]; yield c
+      c = copy.deepcopy(cfg); del c['spec']['ops'][i]
+      if c['spec'].get('early'):
+        c['spec']['early']['cut'] = min(c['spec']['early']['cut'],
+                                        len(c['spec']['ops']))
+      yield c
+    if spec.get('early'):
+      c = copy.deepcopy(cfg); del c['spec']['early']; yield c
 
 
 FAMILIES = {'tasks': TasksFamily(), 'shards': ShardsFamily()}
